@@ -326,6 +326,9 @@ func runOneHistory(opt TwinOptions, c int, r *rng.R, res *Result, hl *HistoryLog
 							tx = future[r.Intn(len(future))]
 						}
 					}
+					if tx == nil && r.Intn(3) == 0 {
+						tx = g.FinalizeAny().Bytes
+					}
 					if tx == nil {
 						tx = g.Next(wt).Bytes
 					}
